@@ -119,7 +119,7 @@ func genC17(t *rapid.T) *Case {
 	}
 	var pols []live
 	addNew := func() {
-		base := rapid.SampledFrom([]string{"New", "New", "UGC", "Strict"}).Draw(t, "base")
+		base := rapid.SampledFrom([]string{"New", "New", "UGC", "Strict", "Zero"}).Draw(t, "base")
 		pols = append(pols, live{base: base})
 		c.Steps = append(c.Steps, Step{Kind: "new", Base: base})
 	}
